@@ -269,7 +269,12 @@ class Shard(ShardCMC):
 
         with open(file_path, "rb") as fp:
             fp.seek(offset)
-            return fp.read(length)
+            content = fp.read(length)
+        if len(content) != length:
+            raise ShardedIOError(f"Reading {file_path} error. Expecting "
+                                 f"{length} bytes at offset {offset}, "
+                                 f"but got {len(content)} (truncated file?)")
+        return content
 
     def store_cmc_chunk(self, buf: bytes, cmc: np.uint64):
         if not self.can_write_cmc:
